@@ -67,6 +67,6 @@ def objCfg : ObjCfg :=
 def distCfg : DistCfg := { zCmp := .eq }
 
 /-- the point about which the fall-back branch of `MeshVolumeRegion._circumradius` measures the vertices -/
-def fallbackCenter : Center := .origin
+def fallbackCenter : Center := .position
 
 end Scenic.Gen
